@@ -173,6 +173,30 @@ def run_go_test(rec, repo):
 def run_replay_file(path):
     with open(path) as f:
         rec = json.load(f)
+    if rec.get('kind') == 'bounded':
+        # re-run the bounded stand-in with the recorded seed and iteration count
+        import subprocess
+        b = rec['bounded']
+        verif = os.path.dirname(os.path.dirname(os.path.dirname(os.path.abspath(__file__))))
+        repo = os.environ.get('VERIF_REPO', '/repo')
+        wd = os.path.join(os.environ.get('VERIF_WORK') or os.path.join(verif, 'work'), 'bounded', rec['property'])
+        os.makedirs(wd, exist_ok=True)
+        ov = os.path.join(wd, b['name'] + '.replay.overlay.json')
+        with open(ov, 'w') as f:
+            json.dump({'Replace': {os.path.join(repo, b['pkg'], 'zz_verif_bounded_%s_test.go' % b['name']): os.path.join(verif, b['file'])}}, f)
+        env = dict(os.environ)
+        env.update({'GOFLAGS': '-mod=mod', 'GOPROXY': 'off', 'VERIF_BOUNDED_ITERS': str(rec['iterations']), 'VERIF_SEED': str(rec['seed'])})
+        env.pop('GOTOOLCHAIN', None)
+        env.pop('GOSUMDB', None)
+        pr = subprocess.run(['go', 'test', '-overlay', ov, '-vet=off', '-count=1', '-timeout', '600s', '-run', b['run'], './' + b['pkg'] + '/'],
+                            cwd=repo, env=env, capture_output=True, text=True)
+        out = pr.stdout + pr.stderr
+        print(out[-4000:])
+        if pr.returncode != 0 and 'FAILING-INPUT' in out:
+            print('REPRODUCED: the real code fails the bounded check on the input above')
+            return 1
+        print('not reproduced')
+        return 0
     print('obligation: %s' % rec['obligation'])
     print('function:   %s' % rec['function'])
     print('clause:     %s' % rec.get('clause'))
